@@ -120,30 +120,21 @@ using e14_server8 = bluetoe::server<
     bluetoe::server_name< e14_name_10 >
 >;
 
-static e14_server0 e14_srv0;
-static e14_server1 e14_srv1;
-static e14_server2 e14_srv2;
-static e14_server3 e14_srv3;
-static e14_server4 e14_srv4;
-static e14_server5 e14_srv5;
-static e14_server6 e14_srv6;
-static e14_server7 e14_srv7;
-static e14_server8 e14_srv8;
+/* one unit per configuration (E14_PART = cfg, selected by the property spec): keeps the generated C small */
+#ifndef E14_PART
+#error "E14_PART (0..8) selects the configuration"
+#endif
+#define E14_CAT_( a, b ) a ## b
+#define E14_CAT( a, b ) E14_CAT_( a, b )
+using e14_server_t = E14_CAT( e14_server, E14_PART );
+static e14_server_t e14_srv;
 
-#define E14_FOR_CFG( cfg, expr ) \
-    switch ( cfg ) { \
-    case 0: { auto& s = e14_srv0; expr; } break; \
-    case 1: { auto& s = e14_srv1; expr; } break; \
-    case 2: { auto& s = e14_srv2; expr; } break; \
-    case 3: { auto& s = e14_srv3; expr; } break; \
-    case 4: { auto& s = e14_srv4; expr; } break; \
-    case 5: { auto& s = e14_srv5; expr; } break; \
-    case 6: { auto& s = e14_srv6; expr; } break; \
-    case 7: { auto& s = e14_srv7; expr; } break; \
-    default: { auto& s = e14_srv8; expr; } break; \
-    }
+/* cfg is checked by the harness against vf_e14_part() */
+#define E14_FOR_CFG( cfg, expr ) { auto& s = e14_srv; (void)cfg; expr; }
 
 extern "C" {
+
+__attribute__((noinline)) int vf_e14_part( void ) { return E14_PART; }
 
 __attribute__((noinline)) std::size_t vf_e14_advertising_data( int cfg, std::uint8_t* buffer, std::size_t buffer_size )
 {
@@ -160,15 +151,20 @@ __attribute__((noinline)) std::size_t vf_e14_scan_response_data( int cfg, std::u
 }
 
 /* cfg 6 only: what the application does at run time */
+#if E14_PART == 6
 __attribute__((noinline)) void vf_e14_set_runtime_advertising_data( const std::uint8_t* data, std::size_t size )
 {
-    e14_srv6.set_runtime_custom_advertising_data( data, size );
+    e14_srv.set_runtime_custom_advertising_data( data, size );
 }
 
 __attribute__((noinline)) void vf_e14_set_runtime_scan_response_data( const std::uint8_t* data, std::size_t size )
 {
-    e14_srv6.set_runtime_custom_scan_response_data( data, size );
+    e14_srv.set_runtime_custom_scan_response_data( data, size );
 }
+#else
+__attribute__((noinline)) void vf_e14_set_runtime_advertising_data( const std::uint8_t*, std::size_t ) {}
+__attribute__((noinline)) void vf_e14_set_runtime_scan_response_data( const std::uint8_t*, std::size_t ) {}
+#endif
 
 __attribute__((noinline)) int vf_e14_data_changed( int cfg )
 {
